@@ -142,6 +142,35 @@ pub proof fn {n}_at_add(q: int, s: Seq<int>, n: int, m: int)
         assert(s.drop_first().skip(n - 1) =~= s.skip(n));
     }}
 }}
+/// the state after n characters only depends on those characters
+pub proof fn {n}_at_prefix(q: int, p: Seq<int>, s: Seq<int>, n: int)
+    requires 0 <= n <= p.len(), n <= s.len(), forall|i: int| 0 <= i < n ==> p[i] == s[i],
+    ensures {n}_at(q, p, n) == {n}_at(q, s, n),
+    decreases n
+{{
+    if n > 0 && q >= 0 {{
+        assert forall|i: int| 0 <= i < n - 1 implies p.drop_first()[i] == s.drop_first()[i] by {{ assert(p.drop_first()[i] == p[i + 1]); assert(s.drop_first()[i] == s[i + 1]); }}
+        assert(p[0] == s[0]);
+        {n}_at_prefix({n}_step(q, p[0]), p.drop_first(), s.drop_first(), n - 1);
+    }}
+}}
+/// an accepted text leads to an accepting state
+pub proof fn {n}_run_at(q: int, s: Seq<int>)
+    requires {n}_run(q, s),
+    ensures {n}_at(q, s, s.len() as int) >= 0, {n}_final({n}_at(q, s, s.len() as int)),
+{{
+    {n}_split(q, s, s.len() as int);
+    assert(s.skip(s.len() as int) =~= Seq::<int>::empty());
+    if {n}_at(q, s, s.len() as int) < 0 {{ {n}_dead(Seq::<int>::empty()); }}
+}}
+/// ... and conversely
+pub proof fn {n}_at_run(q: int, s: Seq<int>)
+    requires {n}_at(q, s, s.len() as int) >= 0, {n}_final({n}_at(q, s, s.len() as int)),
+    ensures {n}_run(q, s),
+{{
+    {n}_split(q, s, s.len() as int);
+    assert(s.skip(s.len() as int) =~= Seq::<int>::empty());
+}}
 pub proof fn {n}_at_neg(s: Seq<int>, n: int)
     ensures forall|q: int| q < 0 ==> #[trigger] {n}_at(q, s, n) == q,
 {{ }}
@@ -164,7 +193,7 @@ pub proof fn {n}_split(q: int, s: Seq<int>, n: int)
 """
 
 
-def gen_component(name, A, B, a_name, b_name, start_init, scans, stops, close_on_end, close_on, emit_a=True, emit_b=True, prelude=True, start_pairs=None):
+def gen_component(name, A, B, a_name, b_name, start_init, scans, stops, close_on_end, close_on, emit_a=True, emit_b=True, prelude=True, start_pairs=None, converse=False):
     """
     start_init: set of A states before the scans; scans: list of (avoid set, delimiter char or None): the component starts
     after following, from a state of the current set, characters outside `avoid` and then the delimiter (None: no
@@ -317,6 +346,70 @@ pub proof fn %(name)s_track(a: int, b: int, t: Seq<int>, n: int)
         parts.append(_set_spec("%s_endst" % name, ends_a))
         parts.append("proof fn %s_rel_endst(a: int, b: int)\n    requires %s_rel(a, b),\n    ensures %s_endst(a),\n{ }" % (name, name, name))
         lemmas += 2
+    if converse:
+        # progress: while B is alive on a non-stop character, A is alive too (one lemma per A-state)
+        for a in sorted(by):
+            parts.append("proof fn %s_p%d(a: int, b: int, c: int)\n    requires a == %d, %s_rel(a, b), b >= 0, !%s, %s_step(b, c) >= 0,\n    ensures %s_step(a, c) >= 0,\n{ }" % (name, a, a, name, _in_set("c", stops), b_name, a_name))
+            lemmas += 1
+        pdisp = "\n".join("        %s a == %d { %s_p%d(a, b, c); %s_s%d(a, b, c); }" % ("if" if j == 0 else "else if", a, name, a, name, a) for j, a in enumerate(sorted(by)))
+        parts.append("""/// forward simulation: as long as B is alive on characters that are not stop characters, A is alive and the pair stays in REL
+pub proof fn %(name)s_fwd(a: int, b: int, t: Seq<int>, n: int)
+    requires %(name)s_rel(a, b), b >= 0, 0 <= n <= t.len(), %(q0)s, %(B)s_at(b, t, n) >= 0,
+    ensures %(A)s_at(a, t, n) >= 0, %(name)s_rel(%(A)s_at(a, t, n), %(B)s_at(b, t, n)),
+    decreases n
+{
+    if n > 0 {
+        let c = t[0];
+        assert(!%(stc)s);
+        assert(%(B)s_at(b, t, n) == %(B)s_at(%(B)s_step(b, c), t.drop_first(), n - 1));
+        if %(B)s_step(b, c) < 0 { %(B)s_at_neg(t.drop_first(), n - 1); }
+%(pdisp)s
+        %(q1)s
+        %(name)s_fwd(%(A)s_step(a, c), %(B)s_step(b, c), t.drop_first(), n - 1);
+        assert(%(A)s_at(a, t, n) == %(A)s_at(%(A)s_step(a, c), t.drop_first(), n - 1));
+    }
+}""" % {"name": name, "A": a_name, "B": b_name, "stc": _in_set("c", stops) if stops else "false", "pdisp": pdisp,
+       "q0": ("forall|i: int| 0 <= i < n ==> !%s" % _in_set("#[trigger] t[i]", stops)) if stops else "true",
+       "q1": ("assert forall|i: int| 0 <= i < n - 1 implies !%s by { assert(t.drop_first()[i] == t[i + 1]); }" % _in_set("#[trigger] t.drop_first()[i]", stops)) if stops else ""})
+        lemmas += 1
+        parts.append("""/// forward simulation between two positions of a text
+pub proof fn %(name)s_span(s: Seq<int>, p0: int, p1: int, a: int, b: int)
+    requires 0 <= p0 <= p1 <= s.len(), %(A)s_at(0, s, p0) == a, %(name)s_rel(a, b), b >= 0,
+        %(B)s_at(b, s.subrange(p0, p1), p1 - p0) >= 0, %(q0)s,
+    ensures %(A)s_at(0, s, p1) >= 0, %(name)s_rel(%(A)s_at(0, s, p1), %(B)s_at(b, s.subrange(p0, p1), p1 - p0)),
+{
+    let sub = s.subrange(p0, p1);
+    %(q1)s
+    %(name)s_fwd(a, b, sub, p1 - p0);
+    %(A)s_at_add(0, s, p0, p1 - p0);
+    assert forall|i: int| 0 <= i < p1 - p0 implies sub[i] == s.skip(p0)[i] by { }
+    %(A)s_at_prefix(a, sub, s.skip(p0), p1 - p0);
+}""" % {"name": name, "A": a_name, "B": b_name,
+       "q0": ("forall|i: int| p0 <= i < p1 ==> !%s" % _in_set("#[trigger] s[i]", stops)) if stops else "true",
+       "q1": ("assert forall|i: int| 0 <= i < p1 - p0 implies !%s by { assert(sub[i] == s[i + p0]); }" % _in_set("#[trigger] sub[i]", stops)) if stops else ""})
+        lemmas += 1
+        okend = sorted(set(a for a, b in pairs if b >= 0 and b in B.finals))
+        parts.append(_set_spec("%s_okend" % name, okend))
+        parts.append("proof fn %s_rel_okend(a: int, b: int)\n    requires %s_rel(a, b), b >= 0, %s_final(b),\n    ensures %s_okend(a),\n{ }" % (name, name, b_name, name))
+        lemmas += 1
+        if stops and all(B.step(b, d) < 0 for b in range(B.n) for d in stops):
+            parts.append("proof fn %s_nostop(b: int, c: int)\n    requires b >= 0, %s_step(b, c) >= 0,\n    ensures !%s,\n{ }" % (name, b_name, _in_set("c", stops)))
+            parts.append("""/// a text B stays alive on contains no stop character
+pub proof fn %(name)s_nostop_all(b: int, t: Seq<int>, n: int)
+    requires b >= 0, 0 <= n <= t.len(), %(B)s_at(b, t, n) >= 0,
+    ensures forall|i: int| 0 <= i < n ==> !%(st)s,
+    decreases n
+{
+    if n > 0 {
+        let c = t[0];
+        assert(%(B)s_at(b, t, n) == %(B)s_at(%(B)s_step(b, c), t.drop_first(), n - 1));
+        if %(B)s_step(b, c) < 0 { %(B)s_at_neg(t.drop_first(), n - 1); }
+        %(name)s_nostop(b, c);
+        %(name)s_nostop_all(%(B)s_step(b, c), t.drop_first(), n - 1);
+        assert forall|i: int| 0 <= i < n implies !%(st)s by { if i > 0 { assert(t[i] == t.drop_first()[i - 1]); assert(!%(st1)s) by { let j = i - 1; assert(!%(stj)s); } } }
+    }
+}""" % {"name": name, "B": b_name, "st": _in_set("#[trigger] t[i]", stops), "st1": _in_set("t.drop_first()[i - 1]", stops), "stj": _in_set("t.drop_first()[j]", stops)})
+            lemmas += 2
     return "\n".join(parts), {"start_states": len(starts), "pairs": len(pairs), "lemmas": lemmas, "end_states": sorted(set(a for a, b in pairs)), "cursets": cursets}, scan_names, sn
 
 
@@ -858,3 +951,353 @@ def check_all(workdir, rlimit=600, jobs=5, only=None):
                 "verified": v.get("verified"), "errors": v.get("errors"), "smt_s": round(v.get("smt_s") or 0, 1), "wall_s": round(v["wall"], 1), "stderr": "" if v["ok"] else v["stderr"][-2500:]}
     with ThreadPoolExecutor(max_workers=jobs) as ex:
         return list(ex.map(one, [k for k in CERTS if not only or k in only]))
+
+
+def compose_cert(A, SC, AU, PA, QU, FR, a_name="UriRef"):
+    """G1b: a text assembled from valid components in fitting contexts is a valid URI reference (converse of the
+    component certificates: forward simulation A follows B, closing lemmas between the components)."""
+    pts = sorted(set(_points(A, [COLON, SLASH, QUEST, HASH]) + _points(PA)))
+    out = []
+    s_sc, i_sc, _, _ = gen_component("sc", A, SC, a_name, "Scheme", {0}, [], CSQF, False, {COLON}, converse=True)
+    out.append(s_sc)
+    s_au, i_au, _, _ = gen_component("au", A, AU, a_name, "Authority", {0}, [(CSQF, COLON, True), (None, SLASH), (None, SLASH)], SQF, True, SQF, emit_a=False, prelude=False, converse=True)
+    out.append(s_au)
+    hs = set(i_au["cursets"][1]); hs1 = hs - {0}
+    au_ok = set(a for a in i_au["end_states"])
+    pap = set()
+    for a in i_au["end_states"]:
+        a1 = A.step(a, SLASH)
+        if a1 >= 0:
+            pap.add((a1, PA.step(0, SLASH)))
+    s_pa, i_pa, _, _ = gen_component("pa", A, PA, a_name, "Path", set(i_au["end_states"]), [], QF, True, QF, emit_a=False, emit_b=True, prelude=False, start_pairs=pap, converse=True)
+    out.append(s_pa)
+    sp = set()
+    for q in hs:
+        if q != 0:
+            for c in pts:
+                if c in SQF:
+                    continue
+                a1 = A.step(q, c)
+                if a1 >= 0:
+                    sp.add((a1, PA.step(0, c)))
+        a1 = A.step(q, SLASH)
+        if a1 >= 0:
+            b1 = PA.step(0, SLASH)
+            for c in pts:
+                if c in SQF:
+                    continue
+                a2 = A.step(a1, c)
+                if a2 >= 0:
+                    sp.add((a2, PA.step(b1, c) if b1 >= 0 else -1))
+    s_pn, i_pn, _, _ = gen_component("pn", A, PA, a_name, "Path", hs, [], QF, True, QF, emit_a=False, emit_b=False, prelude=False, start_pairs=sp, converse=True)
+    out.append(s_pn)
+    zs = set()
+    for c in pts:
+        if c in CSQF:
+            continue
+        a1 = A.step(0, c)
+        if a1 >= 0:
+            zs.add((a1, PA.step(0, c)))
+    s_pz, i_pz, _, _ = gen_component("pz", A, PA, a_name, "Path", {0}, [], CSQF, True, QF, emit_a=False, emit_b=False, prelude=False, start_pairs=zs, converse=True)
+    out.append(s_pz)
+    zp = set()
+    for (a, b) in product(A, PA, {0}, CSQF, pts, zs):
+        a1 = A.step(a, SLASH)
+        if a1 >= 0:
+            zp.add((a1, PA.step(b, SLASH) if b >= 0 else -1))
+    s_py, i_py, _, _ = gen_component("py", A, PA, a_name, "Path", {0}, [], QF, True, QF, emit_a=False, emit_b=False, prelude=False, start_pairs=zp, converse=True)
+    out.append(s_py)
+    # states at the end of a complete, fitting path
+    def okend(pairs_info_name, B, pairs):
+        return set(a for a, b in pairs if b >= 0 and b in B.finals)
+    pa_pairs = product(A, PA, set(), QF, pts, pap); pn_pairs = product(A, PA, set(), QF, pts, sp)
+    pz_pairs = product(A, PA, set(), CSQF, pts, zs); py_pairs = product(A, PA, set(), QF, pts, zp)
+    au_pairs = product(A, AU, set(i_au["cursets"][3]), SQF, pts)
+    au_okend = okend("au", AU, au_pairs)
+    slash1 = set(A.step(q, SLASH) for q in hs) - {-1}
+    peok = set(au_okend) | set(hs) | slash1 | okend("pa", PA, pa_pairs) | okend("pn", PA, pn_pairs) | okend("pz", PA, pz_pairs) | okend("py", PA, py_pairs)
+    s_qu, i_qu, _, _ = gen_component("qu", A, QU, a_name, "Query", peok, [(None, QUEST)], {HASH}, True, {HASH}, emit_a=False, prelude=False, converse=True)
+    out.append(s_qu)
+    qu_pairs = product(A, QU, set(i_qu["cursets"][1]), {HASH}, pts)
+    qeok = okend("qu", QU, qu_pairs)
+    s_fr, i_fr, _, _ = gen_component("fr", A, FR, a_name, "Fragment", peok | qeok, [(None, HASH)], set(), True, set(), emit_a=False, prelude=False, converse=True)
+    out.append(s_fr)
+    out.append(_set_spec("hs", hs)); out.append(_set_spec("hs1", hs1)); out.append(_set_spec("slash1", slash1)); out.append(_set_spec("peok", peok)); out.append(_set_spec("qeok", qeok))
+    src = "\n".join(out)
+    src += """
+pub open spec fn csqf(c: int) -> bool { c == 35 || c == 47 || c == 58 || c == 63 }
+pub open spec fn sqf(c: int) -> bool { c == 35 || c == 47 || c == 63 }
+pub open spec fn qf(c: int) -> bool { c == 35 || c == 63 }
+// ---- closing lemmas between the components ----
+proof fn sc_to_hs1(a: int)
+    requires sc_okend(a),
+    ensures %(A)s_step(a, 58) >= 0, hs1(%(A)s_step(a, 58)), hs(%(A)s_step(a, 58)),
+{ }
+proof fn hs_zero()
+    ensures hs(0), sc_rel(0, 0), peok(0),
+{ }
+proof fn au_enter_fwd(q: int)
+    requires hs(q),
+    ensures %(A)s_step(q, 47) >= 0, %(A)s_step(%(A)s_step(q, 47), 47) >= 0, au_rel(%(A)s_step(%(A)s_step(q, 47), 47), 0),
+{ }
+proof fn au_to_peok(a: int)
+    requires au_okend(a),
+    ensures peok(a), %(A)s_step(a, 47) >= 0, pa_rel(%(A)s_step(a, 47), Path_step(0, 47)), Path_step(0, 47) >= 0,
+{ }
+proof fn hs_to_peok(q: int)
+    requires hs(q),
+    ensures peok(q), %(A)s_step(q, 47) >= 0, slash1(%(A)s_step(q, 47)), peok(%(A)s_step(q, 47)), Path_step(0, 47) >= 0,
+{ }
+proof fn pn_first_fwd(q: int, c: int)
+    requires hs1(q), !sqf(c), Path_step(0, c) >= 0,
+    ensures %(A)s_step(q, c) >= 0, pn_rel(%(A)s_step(q, c), Path_step(0, c)),
+{ }
+proof fn pn_second_fwd(q: int, c: int)
+    requires hs(q), !sqf(c), Path_step(Path_step(0, 47), c) >= 0,
+    ensures %(A)s_step(%(A)s_step(q, 47), c) >= 0, pn_rel(%(A)s_step(%(A)s_step(q, 47), c), Path_step(Path_step(0, 47), c)),
+{ }
+proof fn pz_first_fwd(c: int)
+    requires !csqf(c), Path_step(0, c) >= 0,
+    ensures %(A)s_step(0, c) >= 0, pz_rel(%(A)s_step(0, c), Path_step(0, c)),
+{ }
+proof fn py_enter_fwd(a: int, b: int)
+    requires pz_rel(a, b), b >= 0, Path_step(b, 47) >= 0,
+    ensures %(A)s_step(a, 47) >= 0, py_rel(%(A)s_step(a, 47), Path_step(b, 47)),
+{ }
+proof fn paths_to_peok(a: int)
+    requires pa_okend(a) || pn_okend(a) || pz_okend(a) || py_okend(a),
+    ensures peok(a),
+{ }
+proof fn peok_close(a: int)
+    requires peok(a),
+    ensures %(A)s_final(a), %(A)s_step(a, 63) >= 0, qu_rel(%(A)s_step(a, 63), 0), %(A)s_step(a, 35) >= 0, fr_rel(%(A)s_step(a, 35), 0),
+{ }
+proof fn qu_to_qeok(a: int)
+    requires qu_okend(a),
+    ensures qeok(a),
+{ }
+proof fn qeok_close(a: int)
+    requires qeok(a),
+    ensures %(A)s_final(a), %(A)s_step(a, 35) >= 0, fr_rel(%(A)s_step(a, 35), 0),
+{ }
+proof fn fr_close(a: int)
+    requires fr_okend(a),
+    ensures %(A)s_final(a),
+{ }
+
+/// the path part: from the state at its start (in `hs` without authority, in `au_okend` after one) to a `peok` state at its end
+proof fn path_fwd(s: Seq<int>, h: int, ae: int, pe: int, f: int)
+    requires 0 <= h <= ae <= pe <= s.len(), %(A)s_at(0, s, ae) >= 0,
+        ae > h ==> au_okend(%(A)s_at(0, s, ae)) && (pe == ae || s[ae] == 47),
+        ae == h ==> hs(%(A)s_at(0, s, h)) && (h > 0 ==> hs1(%(A)s_at(0, s, h))) && (h == 0 ==> %(A)s_at(0, s, 0) == 0),
+        Path_run(0, s.subrange(ae, pe)),
+        ae == h ==> !(h + 1 < pe && s[h] == 47 && s[h + 1] == 47),
+        (ae == h && h == 0) ==> (0 <= f <= pe && (forall|i: int| 0 <= i < f ==> #[trigger] s[i] != 47 && s[i] != 58) && (f == pe || s[f] == 47)),
+    ensures %(A)s_at(0, s, pe) >= 0, peok(%(A)s_at(0, s, pe)),
+{
+    let p = s.subrange(ae, pe);
+    let n = pe - ae;
+    let a = %(A)s_at(0, s, ae);
+    Path_run_at(0, p);
+    assert(p.len() == n);
+    if n == 0 {
+        if ae > h { au_to_peok(a); } else { hs_to_peok(a); }
+    } else {
+        let c0 = s[ae];
+        assert(p[0] == c0);
+        // B alive on the first character
+        assert(Path_at(0, p, n) == Path_at(Path_step(0, c0), p.drop_first(), n - 1));
+        if Path_step(0, c0) < 0 { Path_at_neg(p.drop_first(), n - 1); }
+        pa_nostop_all(0, p, n);
+        assert(!qf(c0)) by { assert(!(p[0] == 35 || p[0] == 63)); }
+        %(A)s_at_next(0, s, ae);
+        if ae > h {
+            // after an authority: '/' then the rest
+            assert(c0 == 47);
+            au_to_peok(a);
+            let a1 = %(A)s_step(a, 47);
+            let b1 = Path_step(0, 47);
+            assert(p.subrange(1, n) =~= s.subrange(ae + 1, pe));
+            Path_at_add(0, p, 1, n - 1);
+            assert(Path_at(0, p, 1) == b1) by { assert(Path_at(Path_step(0, p[0]), p.drop_first(), 0) == Path_step(0, p[0])); }
+            assert(p.skip(1) =~= s.subrange(ae + 1, pe));
+            Path_at_prefix(b1, p.skip(1), s.subrange(ae + 1, pe), n - 1);
+            assert forall|i: int| ae + 1 <= i < pe implies !(#[trigger] s[i] == 35 || s[i] == 63) by { assert(p[i - ae] == s[i]); assert(!(p[i - ae] == 35 || p[i - ae] == 63)); }
+            pa_span(s, ae + 1, pe, a1, b1);
+            let ae_ = %(A)s_at(0, s, pe);
+            pa_rel_okend(ae_, Path_at(b1, s.subrange(ae + 1, pe), n - 1));
+            paths_to_peok(ae_);
+        } else if c0 == 47 {
+            hs_to_peok(a);
+            let a1 = %(A)s_step(a, 47);
+            let b1 = Path_step(0, 47);
+            if n == 1 {
+            } else {
+                let c1 = s[h + 1];
+                assert(p[1] == c1);
+                assert(c1 != 47);
+                assert(!(p[1] == 35 || p[1] == 63));
+                Path_at_add(0, p, 1, n - 1);
+                assert(Path_at(0, p, 1) == b1) by { assert(Path_at(Path_step(0, p[0]), p.drop_first(), 0) == Path_step(0, p[0])); }
+                Path_at_add(0, p, 2, n - 2);
+                Path_at_next(0, p, 1);
+                let b2 = Path_step(b1, c1);
+                assert(Path_at(0, p, 2) == b2);
+                if b2 < 0 { Path_at_neg(p.skip(2), n - 2); }
+                pn_second_fwd(a, c1);
+                let a2 = %(A)s_step(a1, c1);
+                %(A)s_at_next(0, s, h + 1);
+                assert(p.skip(2) =~= s.subrange(h + 2, pe));
+                Path_at_prefix(b2, p.skip(2), s.subrange(h + 2, pe), n - 2);
+                assert forall|i: int| h + 2 <= i < pe implies !(#[trigger] s[i] == 35 || s[i] == 63) by { assert(p[i - h] == s[i]); assert(!(p[i - h] == 35 || p[i - h] == 63)); }
+                pn_span(s, h + 2, pe, a2, b2);
+                let e_ = %(A)s_at(0, s, pe);
+                pn_rel_okend(e_, Path_at(b2, s.subrange(h + 2, pe), n - 2));
+                paths_to_peok(e_);
+            }
+        } else if h > 0 {
+            // after a scheme: rootless path
+            pn_first_fwd(a, c0);
+            let a1 = %(A)s_step(a, c0);
+            let b1 = Path_step(0, c0);
+            Path_at_add(0, p, 1, n - 1);
+            assert(Path_at(0, p, 1) == b1) by { assert(Path_at(Path_step(0, p[0]), p.drop_first(), 0) == Path_step(0, p[0])); }
+            assert(p.skip(1) =~= s.subrange(h + 1, pe));
+            Path_at_prefix(b1, p.skip(1), s.subrange(h + 1, pe), n - 1);
+            assert forall|i: int| h + 1 <= i < pe implies !(#[trigger] s[i] == 35 || s[i] == 63) by { assert(p[i - h] == s[i]); assert(!(p[i - h] == 35 || p[i - h] == 63)); }
+            pn_span(s, h + 1, pe, a1, b1);
+            let e_ = %(A)s_at(0, s, pe);
+            pn_rel_okend(e_, Path_at(b1, s.subrange(h + 1, pe), n - 1));
+            paths_to_peok(e_);
+        } else {
+            // no scheme, relative path: the first segment (up to the first '/') has no ':'
+            assert(f >= 1) by { if f == 0 { assert(s[0] == 47); } }
+            assert(c0 != 58) by { assert(s[0] != 58); }
+            pz_first_fwd(c0);
+            let a1 = %(A)s_step(0, c0);
+            let b1 = Path_step(0, c0);
+            let k = f;
+            assert forall|i: int| 1 <= i < k implies !(#[trigger] s[i] == 35 || s[i] == 47 || s[i] == 58 || s[i] == 63) by {
+                assert(p[i] == s[i]); assert(!(p[i] == 35 || p[i] == 63));
+                assert(s[i] != 47 && s[i] != 58);
+            }
+            Path_at_add(0, p, 1, n - 1);
+            assert(Path_at(0, p, 1) == b1) by { assert(Path_at(Path_step(0, p[0]), p.drop_first(), 0) == Path_step(0, p[0])); }
+            Path_at_add(0, p, k, n - k);
+            if Path_at(0, p, k) < 0 { Path_at_neg(p.skip(k), n - k); }
+            Path_at_add(0, p, 1, k - 1);
+            assert(p.skip(1).subrange(0, k - 1) =~= s.subrange(1, k));
+            Path_at_prefix(b1, p.skip(1), s.subrange(1, k), k - 1);
+            pz_span(s, 1, k, a1, b1);
+            let ak = %(A)s_at(0, s, k);
+            let bk = Path_at(b1, s.subrange(1, k), k - 1);
+            assert(bk == Path_at(0, p, k));
+            if k == pe {
+                pz_rel_okend(ak, bk);
+                paths_to_peok(ak);
+            } else {
+                // '/' at k, then the rest
+                Path_at_next(0, p, k);
+                assert(p[k] == 47);
+                let bk1 = Path_step(bk, 47);
+                Path_at_add(0, p, k + 1, n - k - 1);
+                if bk1 < 0 { Path_at_neg(p.skip(k + 1), n - k - 1); }
+                py_enter_fwd(ak, bk);
+                %(A)s_at_next(0, s, k);
+                let ak1 = %(A)s_step(ak, 47);
+                assert(p.skip(k + 1) =~= s.subrange(k + 1, pe));
+                Path_at_prefix(bk1, p.skip(k + 1), s.subrange(k + 1, pe), n - k - 1);
+                assert forall|i: int| k + 1 <= i < pe implies !(#[trigger] s[i] == 35 || s[i] == 63) by { assert(p[i] == s[i]); assert(!(p[i] == 35 || p[i] == 63)); }
+                py_span(s, k + 1, pe, ak1, bk1);
+                let e_ = %(A)s_at(0, s, pe);
+                py_rel_okend(e_, Path_at(bk1, s.subrange(k + 1, pe), n - k - 1));
+                paths_to_peok(e_);
+            }
+        }
+    }
+}
+/// FACT (converse of the component certificates): a text whose App. B pieces are valid component values in fitting
+/// contexts is a valid %(A)s. k: end of the scheme (h == k + 1) or unused (h == 0); ae == h: no authority;
+/// f (used only without scheme and authority): end of the first path segment, which must not contain ':'.
+pub proof fn compose(s: Seq<int>, k: int, h: int, ae: int, pe: int, qe: int, f: int)
+    requires
+        h == 0 || (0 <= k && h == k + 1 && h <= s.len() && s[k] == 58 && Scheme_run(0, s.subrange(0, k))),
+        0 <= h <= ae <= pe <= qe <= s.len(),
+        ae == h || (h + 2 <= ae && s[h] == 47 && s[h + 1] == 47 && Authority_run(0, s.subrange(h + 2, ae))),
+        Path_run(0, s.subrange(ae, pe)),
+        ae > h ==> (pe == ae || s[ae] == 47),
+        ae == h ==> !(h + 1 < pe && s[h] == 47 && s[h + 1] == 47),
+        (ae == h && h == 0) ==> (0 <= f <= pe && (forall|i: int| 0 <= i < f ==> #[trigger] s[i] != 47 && s[i] != 58) && (f == pe || s[f] == 47)),
+        qe == pe || (s[pe] == 63 && Query_run(0, s.subrange(pe + 1, qe))),
+        qe == s.len() || (s[qe] == 35 && Fragment_run(0, s.subrange(qe + 1, s.len() as int))),
+    ensures %(A)s_run(0, s),
+{
+    let n = s.len() as int;
+    hs_zero();
+    // 1. scheme
+    if h > 0 {
+        let sub = s.subrange(0, k);
+        Scheme_run_at(0, sub);
+        sc_nostop_all(0, sub, k);
+        assert forall|i: int| 0 <= i < k implies !(#[trigger] s[i] == 35 || s[i] == 47 || s[i] == 58 || s[i] == 63) by { assert(sub[i] == s[i]); assert(!(sub[i] == 35 || sub[i] == 47 || sub[i] == 58 || sub[i] == 63)); }
+        sc_span(s, 0, k, 0, 0);
+        let a = %(A)s_at(0, s, k);
+        sc_rel_okend(a, Scheme_at(0, sub, k));
+        sc_to_hs1(a);
+        %(A)s_at_next(0, s, k);
+    }
+    let qh = %(A)s_at(0, s, h);
+    assert(hs(qh));
+    // 2. authority
+    if ae > h {
+        au_enter_fwd(qh);
+        %(A)s_at_next(0, s, h);
+        %(A)s_at_next(0, s, h + 1);
+        let a2 = %(A)s_at(0, s, h + 2);
+        let sub = s.subrange(h + 2, ae);
+        Authority_run_at(0, sub);
+        au_nostop_all(0, sub, ae - h - 2);
+        assert forall|i: int| h + 2 <= i < ae implies !(#[trigger] s[i] == 35 || s[i] == 47 || s[i] == 63) by { assert(sub[i - h - 2] == s[i]); assert(!(sub[i - h - 2] == 35 || sub[i - h - 2] == 47 || sub[i - h - 2] == 63)); }
+        au_span(s, h + 2, ae, a2, 0);
+        au_rel_okend(%(A)s_at(0, s, ae), Authority_at(0, sub, ae - h - 2));
+    }
+    // 3. path
+    path_fwd(s, h, ae, pe, f);
+    let ap = %(A)s_at(0, s, pe);
+    peok_close(ap);
+    // 4. query
+    if qe > pe {
+        %(A)s_at_next(0, s, pe);
+        let a1 = %(A)s_step(ap, 63);
+        let sub = s.subrange(pe + 1, qe);
+        Query_run_at(0, sub);
+        qu_nostop_all(0, sub, qe - pe - 1);
+        assert forall|i: int| pe + 1 <= i < qe implies !(#[trigger] s[i] == 35) by { assert(sub[i - pe - 1] == s[i]); assert(!(sub[i - pe - 1] == 35)); }
+        qu_span(s, pe + 1, qe, a1, 0);
+        qu_rel_okend(%(A)s_at(0, s, qe), Query_at(0, sub, qe - pe - 1));
+        qu_to_qeok(%(A)s_at(0, s, qe));
+        qeok_close(%(A)s_at(0, s, qe));
+    }
+    let aq = %(A)s_at(0, s, qe);
+    assert(%(A)s_final(aq) && %(A)s_step(aq, 35) >= 0 && fr_rel(%(A)s_step(aq, 35), 0));
+    // 5. fragment
+    if qe < n {
+        %(A)s_at_next(0, s, qe);
+        let a1 = %(A)s_step(aq, 35);
+        let sub = s.subrange(qe + 1, n);
+        Fragment_run_at(0, sub);
+        fr_span(s, qe + 1, n, a1, 0);
+        fr_rel_okend(%(A)s_at(0, s, n), Fragment_at(0, sub, n - qe - 1));
+        fr_close(%(A)s_at(0, s, n));
+    }
+    %(A)s_at_run(0, s);
+}
+} // verus!
+fn main() {}
+""" % {"A": a_name}
+    infos = [i_sc, i_au, i_pa, i_pn, i_pz, i_py, i_qu, i_fr]
+    return src, {"pairs": sum(i["pairs"] for i in infos), "lemmas": sum(i["lemmas"] for i in infos) + 20}
+
+
+CERTS["uriref_compose"] = lambda: compose_cert(dfa.reference("rfc3986.abnf", "URI-reference"), dfa.reference("rfc3986.abnf", "scheme"), dfa.reference("rfc3986.abnf", "authority"),
+                                               dfa.reference("rfc3986.abnf", "path"), dfa.reference("rfc3986.abnf", "query"), dfa.reference("rfc3986.abnf", "fragment"))
